@@ -167,6 +167,8 @@ type State struct {
 	heap    *Heap
 	ctr     map[string]int // per-name counters of input intrinsics (copy on write)
 	ctrOwn  bool
+	facts   map[int]bool // truth of hash-consed boolean terms implied by the path condition (copy on write)
+	factOwn bool
 	kpID    string // known-panic attribution (vrt.PanicKnown)
 	kpCond  *Term
 	nchoose int
@@ -203,6 +205,8 @@ func (s *State) fork(e *Exec) *State {
 	n.pc = append(make([]*Term, 0, len(s.pc)+4), s.pc...)
 	n.ctr = s.ctr
 	s.ctrOwn = false
+	n.facts = s.facts
+	s.factOwn = false
 	n.kpID, n.kpCond, n.nchoose = s.kpID, s.kpCond, s.nchoose
 	return n
 }
@@ -224,7 +228,84 @@ func (s *State) bump(name string) int {
 func (s *State) assume(c *Term) {
 	if !c.isTrue() {
 		s.pc = append(s.pc, c)
+		s.learn(c, true, 0)
 	}
+}
+
+func (s *State) setFact(t *Term, v bool) {
+	if !s.factOwn {
+		m := make(map[int]bool, len(s.facts)+4)
+		for k, x := range s.facts {
+			m[k] = x
+		}
+		s.facts = m
+		s.factOwn = true
+	}
+	s.facts[t.id] = v
+}
+
+// learn records the truth value of c and of the sub-formulas it determines.
+func (s *State) learn(c *Term, v bool, depth int) {
+	if c.isBoolConst() || depth > 6 {
+		return
+	}
+	s.setFact(c, v)
+	switch c.op {
+	case "not":
+		s.learn(c.args[0], !v, depth+1)
+	case "and":
+		if v {
+			s.learn(c.args[0], true, depth+1)
+			s.learn(c.args[1], true, depth+1)
+		}
+	case "or":
+		if !v {
+			s.learn(c.args[0], false, depth+1)
+			s.learn(c.args[1], false, depth+1)
+		}
+	}
+}
+
+// decide evaluates c under the recorded facts: 1 true, 0 false, -1 unknown.
+func (s *State) decide(c *Term, depth int) int {
+	if c.isTrue() {
+		return 1
+	}
+	if c.isFalse() {
+		return 0
+	}
+	if v, ok := s.facts[c.id]; ok {
+		if v {
+			return 1
+		}
+		return 0
+	}
+	if depth > 4 {
+		return -1
+	}
+	switch c.op {
+	case "not":
+		if r := s.decide(c.args[0], depth+1); r >= 0 {
+			return 1 - r
+		}
+	case "and":
+		a, b := s.decide(c.args[0], depth+1), s.decide(c.args[1], depth+1)
+		if a == 0 || b == 0 {
+			return 0
+		}
+		if a == 1 && b == 1 {
+			return 1
+		}
+	case "or":
+		a, b := s.decide(c.args[0], depth+1), s.decide(c.args[1], depth+1)
+		if a == 1 || b == 1 {
+			return 1
+		}
+		if a == 0 && b == 0 {
+			return 0
+		}
+	}
+	return -1
 }
 
 func (e *Exec) alloc(s *State, root Value) int {
